@@ -50,6 +50,14 @@ fn main() {
             }
             std::process::exit(checks::replay_file(&args[2]));
         }
+        "selftest" if args.get(2).map(|s| s == "determinism").unwrap_or(false) => {
+            let n: u64 = args.get(3).and_then(|s| s.parse().ok()).unwrap_or(500);
+            let (digest, bad) = walleye::sa_checks::determinism(77, n);
+            println!("determinism: {} scenarios x2, in-process mismatches={}, digest={:016x}", n, bad, digest);
+            if bad > 0 {
+                std::process::exit(2);
+            }
+        }
         "selftest" => match referee::self_check(4) {
             Ok(n) => println!("referee ok, {} nodes", n),
             Err(e) => {
